@@ -91,7 +91,7 @@ dlaqgs(SuperMatrix *A, double *r, double *c,
     NCformat *Astore;
     double   *Aval;
     int_t i, j, irow;
-    double large, small, cj;
+    double large, small, cj, temp, big;
     extern double dlamch_(char *);
 
 
@@ -107,6 +107,7 @@ dlaqgs(SuperMatrix *A, double *r, double *c,
     /* Initialize LARGE and SMALL. */
     small = dlamch_("Safe minimum") / dlamch_("Precision");
     large = 1. / small;
+    big = 1. / dlamch_("Safe minimum"); /* no scale factor exceeds it */
 
     if (rowcnd >= THRESH && amax >= small && amax <= large) {
 	if (colcnd >= THRESH)
@@ -135,7 +136,12 @@ dlaqgs(SuperMatrix *A, double *r, double *c,
 	    cj = c[j];
 	    for (i = Astore->colptr[j]; i < Astore->colptr[j+1]; ++i) {
 		irow = Astore->rowind[i];
-		Aval[i] *= cj * r[irow];
+		temp = cj * r[irow];
+		if ( temp <= big ) Aval[i] *= temp;
+		else if ( cj >= r[irow] ) /* cj * r[irow] overflows: larger factor first */
+		    Aval[i] = (cj * Aval[i]) * r[irow];
+		else
+		    Aval[i] = (r[irow] * Aval[i]) * cj;
 	    }
 	}
 	*equed = BOTH;
